@@ -454,3 +454,118 @@ def ob_continued_run_counts(n: int, sc: int, s1: int, s2: int, s3: int, hc: int,
 
 
 NC30 = B(2, 3)
+
+
+# --------------------------------------------------------------------------------------------------------------
+# a run that ends while one of its steps is still unwinding from the cancellation keeps its slot until that step is out
+# --------------------------------------------------------------------------------------------------------------
+class Quick30(Event):
+    idx: int
+
+
+class Slow30(Event):
+    idx: int
+
+
+class _WU(Workflow):
+    """fan -> quick (ends the run after hq) and slow (in flight when the run ends: cancelled by the run's clean-up, takes `u` loop iterations
+    to unwind).  The scenario counts RUNS that have a step executing."""
+
+    @step
+    async def fan(self, ctx: Context, ev: StartEvent) -> Quick30 | Slow30:
+        self._enter(ev.idx)
+        try:
+            ctx.send_event(Slow30(idx=ev.idx))
+            return Quick30(idx=ev.idx)
+        finally:
+            self._leave(ev.idx)
+
+    def _enter(self, i: int) -> None:
+        runs, peak = self.sc[0], self.sc[1]
+        runs[i] = runs.get(i, 0) + 1
+        live = len([k for k, v in runs.items() if v > 0])
+        if live > peak[0]:
+            peak[0] = live
+
+    def _leave(self, i: int) -> None:
+        self.sc[0][i] -= 1
+
+    @step
+    async def quick(self, ev: Quick30) -> StopEvent:
+        self._enter(ev.idx)
+        try:
+            await asyncio.sleep(self.sc[2][ev.idx])
+        finally:
+            self._leave(ev.idx)
+        return StopEvent(result=ev.idx)
+
+    @step
+    async def slow(self, ev: Slow30) -> None:
+        self._enter(ev.idx)
+        try:
+            try:
+                await asyncio.sleep(1000)
+            except asyncio.CancelledError:
+                u = self.sc[3]                        # tidying up after the cancellation takes a few loop iterations / some time
+                if u == 4:
+                    await asyncio.sleep(0.25)         # (shorter than the clean-up's own grace period)
+                else:
+                    for _ in range(u):
+                        await asyncio.sleep(0)
+                raise
+        finally:
+            self._leave(ev.idx)
+        return None
+
+
+def _unwind_scenario(limit: int, starts, holds, unwind: int) -> bool:
+    n = len(starts)
+    loop = SymLoop()
+    runs: dict = {}
+    peak = [0]
+
+    async def main():
+        rt = BasicRuntime()
+        wf = _WU(timeout=None, num_concurrent_runs=limit, runtime=rt)
+        wf.sc = (runs, peak, holds, unwind)
+
+        async def one(i):
+            await asyncio.sleep(starts[i])
+            return await wf.run(run_id="r%d" % i, idx=i)
+
+        res = await asyncio.gather(*[asyncio.ensure_future(one(i)) for i in range(n)], return_exceptions=True)
+        reraise_foreign(res)
+        for i, r in enumerate(res):
+            if isinstance(r, BaseException):
+                raise r
+            if r != i:
+                raise AssertionError("run %d returned %r" % (i, r))
+
+    old = basic.time
+    basic.time = FakeTimeModule()
+    try:
+        loop.run_until_complete(main())
+    finally:
+        basic.time = old
+    return peak[0] <= limit
+
+
+@obligation(quick=240, thorough=600, partitions_quick=[f"n == {n} and u == {u}" for n in (1, 2) for u in (0, 1, 4)],
+            partitions_thorough=[f"n == {n} and u == {u} and s1 == {s}" for n in (1, 2) for u in (0, 1, 3, 4) for s in (0, 1, 2)],
+            what="runs that END while one of their steps is still in flight (a parallel branch returned the StopEvent; the in-flight step is "
+                 "cancelled by the run's clean-up and needs a few loop iterations, or a quarter of a second, to unwind): the run's slot is not handed to a queued run while "
+                 "that step is still executing — never more than N runs with a step executing",
+            bounds={"N": "1..2", "runs": 3, "start": "0..2", "time to the StopEvent": "1..2", "unwinding": "0 / 1 (thorough 3) loop iterations, or 0.25 s"})
+def ob_slot_held_until_steps_unwound(n: int, u: int, s1: int, s2: int, h0: int, h1: int, h2: int) -> bool:
+    """
+    pre: 1 <= n <= 2 and (u == 0 or u == 1 or u == 4 or u == UNW30) and 0 <= s1 <= 2 and 0 <= s2 <= 2
+    pre: 1 <= h0 <= 2 and 1 <= h1 <= 2 and 1 <= h2 <= 2
+    post: _
+    """
+    n, u = concrete(n, 1, 2), concrete(u, 0, 5)
+    s1, s2 = concrete(s1, 0, 2), concrete(s2, 0, 2)
+    h0, h1, h2 = concrete(h0, 1, 2), concrete(h1, 1, 2), concrete(h2, 1, 2)
+    return _unwind_scenario(n, [0, s1, s2], [h0, h1, h2], u)
+
+
+UNW30 = B(4, 3)
